@@ -6,7 +6,7 @@ CONSTANTS
   Fams = {4, 6}
   MaxLen = 3
   WithBad = TRUE
-  QueryEdges = TRUE
+  QueryEdges = FALSE
   HostBits = "all"
   Canon = FALSE
 INIT Init
